@@ -23,7 +23,14 @@ STATES = {
                  ["AddRecord", "B", None, {"v": "b1", "ref": 1}],
                  ["UpdateRecord", "A", 1, {"ref": 1, "refs": ["L", 1]}]],
 }
-STATE_ORDER = ['empty', 'one-each']
+# 'two-way': A.ref and B.back are linked as reverses of each other (AddReverseColumn), so an
+# update addressed by a temporary id must also reach the row on the other side under its real id.
+STATES['two-way'] = [["AddRecord", "A", None, {"v": "a1"}],
+                     ["BulkAddRecord", "B", [None, None], {"v": ["b1", "b2"]}],
+                     ["AddReverseColumn", "A", "ref"],
+                     'rename-back',
+                     ["UpdateRecord", "A", 1, {"ref": 1}]]
+STATE_ORDER = ['empty', 'one-each', 'two-way']
 _SNAPS = {}
 
 
@@ -38,6 +45,9 @@ def base_snap(state):
     doc.apply([["AddTable", "Z", [{"id": "v", "type": "Text"}]]])
     doc.apply([["AddRecord", "Z", None, {"v": "z"}]])
     for ua in STATES[state]:
+      if ua == 'rename-back':
+        rev = doc.eng.docmodel.columns.lookupOne(tableId='A', colId='ref').reverseCol.colId
+        ua = ["RenameColumn", "B", rev, "back"]
       doc.apply([ua])
     _SNAPS[state] = doc.snapshot()
   return _SNAPS[state]
@@ -196,7 +206,18 @@ def extract(dump):
       if isinstance(refs, list) and refs and refs[0] == 'L':
         refs = refs[1:]
       res[t][r] = {'v': row['v'], 'ref': row['ref'], 'refs': refs}
+      if 'back' in row:
+        back = row['back']
+        res[t][r]['back'] = sorted(back[1:]) if isinstance(back, list) and back[:1] == ['L'] else back
   return res
+
+
+def with_back(tables):
+  """Reference for the linked pair: B[b].back holds exactly the A rows whose ref is b."""
+  for b, row in tables['B'].items():
+    if 'back' in row or any('back' in r for r in tables['B'].values()):
+      row['back'] = sorted(a for a, ra in tables['A'].items() if ra['ref'] == b) or None
+  return tables
 
 
 def strip(dump):
@@ -241,7 +262,9 @@ def check_case(case):
     return 'applied', ('C26/unknown-temp-id-accepted' + ('/stored-negative' if neg else ''),
                        "%s must be rejected (%s) but was applied; tables now %s" % (
                            desc, '; '.join(ref['why']), json.dumps(t1, sort_keys=True)))
-  if t1 != ref['tables'] and t1 != reference(t0, bundle, rets, clear_absent=True)['tables']:
+  if case['state'] == 'two-way':
+    with_back(ref['tables'])
+  if t1 != ref['tables'] and t1 != with_back(reference(t0, bundle, rets, clear_absent=True)['tables']):
     diffs = []
     for t in TABLES:
       for r in sorted(set(t1[t]) | set(ref['tables'][t])):
@@ -304,10 +327,19 @@ def alphabet(level):
   return out
 
 
+TINY = [('add', 'A', -1, {}), ('add', 'B', None, {'ref': -1}), ('add', 'B', -1, {'refs': [-1, 1]}),
+        ('upd', 'B', 1, {'refs': [-1, 1]}), ('upd', 'B', -1, {'ref': -1}), ('upd', 'A', -1, {'v': 'u'}),
+        ('rem', 'A', -1), ('rem', 'B', -1), ('add', 'A', -1, {'ref': -1}), ('bulk', 'A', [-1, -2], {})]
+TWOWAY = [('add', 'A', -1, {}), ('add', 'A', -1, {'ref': 2}), ('add', 'A', None, {'ref': 1}),
+          ('upd', 'A', -1, {'ref': 2}), ('upd', 'A', -1, {'ref': 1}), ('upd', 'A', 1, {'ref': 2}),
+          ('rem', 'A', -1), ('rem', 'A', 1), ('bulk', 'A', [-1, -2], {'ref': [1, 2]}),
+          ('upd', 'A', -2, {'ref': 1})]
+
+
 def bundles(level, length):
   """All bundles of exactly `length` actions; A and B are symmetric (same columns, same base
   states), so the first action is always on table A."""
-  alpha = alphabet(level)
+  alpha = TINY if level == 'tiny' else (TWOWAY if level == 'twoway' else alphabet(level))
   first = [a for a in alpha if a[1] == 'A']
   for head in first:
     for tail in itertools.product(alpha, repeat=length - 1):
@@ -315,11 +347,16 @@ def bundles(level, length):
 
 
 def cases(tier):
-  plan = [('full', 1), ('mid', 2)] if tier == 'quick' else [('full', 1), ('full', 2), ('small', 3)]
+  plan = ([('full', 1), ('mid', 2), ('tiny', 3)] if tier == 'quick'
+          else [('full', 1), ('full', 2), ('small', 3)])
   for level, length in plan:
-    for state in STATE_ORDER:
+    for state in STATE_ORDER[:2]:
       for b in bundles(level, length):
         yield {'state': state, 'bundle': [list(a) for a in b]}
+  # the linked pair: actions on the single-valued side only (the other side is derived)
+  for length in (1, 2, 3):
+    for b in bundles('twoway', length):
+      yield {'state': 'two-way', 'bundle': [list(a) for a in b]}
 
 
 def simplicity(case):
@@ -365,8 +402,11 @@ def run(tier, report):
       'bundles addressing a never-created / absent row, or referencing a temporary id created only '
       'later, may fail (without trace) or apply with that action as a no-op / the later row. '
       'non-trivial = bundle applied and used a temporary id or a reference value'
-      % ('all 1-action bundles over the full alphabet and all 2-action bundles over the mid '
-         'alphabet' if tier == 'quick' else
+      % ('all 1-action bundles over the full alphabet, all 2-action bundles over the mid '
+         'alphabet, all 3-action bundles over a 10-action alphabet (add by temp id, reference to '
+         'it from the other table, update/removal by temp id); plus, in a third base state where '
+         'A.ref and B.back are two-way linked, all bundles of <= 3 actions over 10 actions on A '
+         '(B.back must hold exactly the A rows whose ref names the row)' if tier == 'quick' else
          'all bundles of 1 and 2 actions over the full alphabet and all 3-action bundles over the '
          'small alphabet', n['full'], n['mid'], n['small'])))
   all_cases = sorted(cases(tier), key=simplicity)
